@@ -2,6 +2,7 @@ import CogentModel.Model.RateMatrix
 import CogentModel.Model.Expm
 import CogentModel.Proofs.RateMatrixLemmas
 import CogentModel.Proofs.ExpmLemmas
+import CogentModel.Proofs.MotifProbLemmas
 import Mathlib.Tactic.NormNum
 /-!
 # C05 — substitution processes are valid, calibrated Markov processes
@@ -114,6 +115,60 @@ theorem stationaryQ_stationary_simple (n : Nat) (R : Mat K) (pi : Vec K)
 example : ∀ i j, i < 2 → j < 2 → mget (#[#[0, 2], #[2, 0]] : Mat ℚ) i j = mget (#[#[0, 2], #[2, 0]] : Mat ℚ) j i :=
   fun i j hi hj => (by decide +kernel : ∀ i, i < 2 → ∀ j, j < 2 →
     mget (#[#[0, 2], #[2, 0]] : Mat ℚ) i j = mget (#[#[0, 2], #[2, 0]] : Mat ℚ) j i) i hi j hj
+
+/-- Detailed balance of `Q` gives stationarity of `π` (used for every time-reversible construction below). -/
+theorem stationary_of_detailed_balance (n : Nat) (Q : Mat K) (pi : Vec K)
+    (hrow : ∀ j, j < n → sumTo n (fun k => mget Q j k) = 0)
+    (hdb : ∀ i j, i < n → j < n → vget pi i * mget Q i j = vget pi j * mget Q j i) (j : Nat) (hj : j < n) :
+    sumTo n (fun i => vget pi i * mget Q i j) = 0 := by
+  rw [sumTo_congr fun i hi => hdb i j hi hj, sumTo_eq_sum, ← Finset.mul_sum, ← sumTo_eq_sum, hrow j hj, mul_zero]
+
+/-- Time-reversible models with the **conditional** motif-prob model (GTR, CNFGTR, CNFHKY; the default for word
+alphabets): `W_ij = π_j / P(context of j at the changed position)`.  If the exchangeability matrix is symmetric and
+vanishes off the instantaneous mask, the mask is symmetric, and instantaneous pairs differ at exactly one position
+(`sameContext`), then detailed balance holds — including the `context_probs == 0 → inf` branch. -/
+theorem reversible_detailed_balance_conditional [DecidableEq K] (words : Array (Array Nat)) (L : Nat) (inst : Mat Bool)
+    (pi : Vec K) (R : Mat K)
+    (hR : ∀ i j, i < words.size → j < words.size → mget R i j = mget R j i)
+    (hzero : ∀ i j, i < words.size → j < words.size → bget inst i j = false → mget R i j = 0)
+    (hinst : ∀ i j, i < words.size → j < words.size → bget inst i j = bget inst j i)
+    (hctx : ∀ i j, i < words.size → j < words.size → bget inst i j = true →
+      sameContext (firstDiff (wordAt words i) (wordAt words j)) 0 (wordAt words i) (wordAt words j) = true)
+    (i j : Nat) (hi : i < words.size) (hj : j < words.size) :
+    vget pi i * mget (calcQStationary words.size R (weightConditional words L inst pi) pi) i j =
+      vget pi j * mget (calcQStationary words.size R (weightConditional words L inst pi) pi) j i :=
+  reversible_detailed_balance words.size R _ pi
+    (fun a b ha hb => weightConditional_balanced words L inst pi R hR hzero hinst hctx a b ha hb) i j hi hj
+
+/-- the dinucleotide alphabet over two letters: the model's own `instMask` meets the hypotheses -/
+example : ∀ i, i < 4 → ∀ j, j < 4 → bget (instMask false 2 #[#[0, 0], #[0, 1], #[1, 0], #[1, 1]]) i j = true →
+    sameContext (firstDiff (wordAt #[#[0, 0], #[0, 1], #[1, 0], #[1, 1]] i) (wordAt #[#[0, 0], #[0, 1], #[1, 0], #[1, 1]] j)) 0
+      (wordAt #[#[0, 0], #[0, 1], #[1, 0], #[1, 1]] i) (wordAt #[#[0, 0], #[0, 1], #[1, 0], #[1, 1]] j) = true := by
+  decide +kernel
+
+/-- Time-reversible models with the **monomer** / position-specific monomer motif-prob models (MG94HKY, MG94GTR):
+word probabilities are normalised products of monomer probabilities and `W_ij` is the probability of the
+new monomer; detailed balance holds w.r.t. the model's own word probabilities. -/
+theorem reversible_detailed_balance_monomer (words : Array (Array Nat)) (L : Nat) (inst : Mat Bool)
+    (mp : Nat → Vec K) (R : Mat K)
+    (hR : ∀ i j, i < words.size → j < words.size → mget R i j = mget R j i)
+    (hzero : ∀ i j, i < words.size → j < words.size → bget inst i j = false → mget R i j = 0)
+    (hinst : ∀ i j, i < words.size → j < words.size → bget inst i j = bget inst j i)
+    (hagree : ∀ i j, i < words.size → j < words.size → bget inst i j = true →
+      firstDiff (wordAt words i) (wordAt words j) < L ∧
+      ∀ k, k < L → k ≠ firstDiff (wordAt words i) (wordAt words j) →
+        (words.getD i #[]).getD k 0 = (words.getD j #[]).getD k 0)
+    (i j : Nat) (hi : i < words.size) (hj : j < words.size) :
+    vget (wordProbsMonomer words L mp) i *
+        mget (calcQStationary words.size R (weightMonomer words inst mp) (wordProbsMonomer words L mp)) i j =
+      vget (wordProbsMonomer words L mp) j *
+        mget (calcQStationary words.size R (weightMonomer words inst mp) (wordProbsMonomer words L mp)) j i :=
+  reversible_detailed_balance words.size R _ _
+    (fun a b ha hb => weightMonomer_balanced words L inst mp R hR hzero hinst hagree a b ha hb) i j hi hj
+
+example : ∀ i, i < 4 → ∀ j, j < 4 → bget (instMask false 2 #[#[0, 0], #[0, 1], #[1, 0], #[1, 1]]) i j = true →
+    firstDiff (wordAt #[#[0, 0], #[0, 1], #[1, 0], #[1, 1]] i) (wordAt #[#[0, 0], #[0, 1], #[1, 0], #[1, 1]] j) < 2 := by
+  decide +kernel
 
 /-- `Parametric.calc_exchangeability_matrix` keeps the exchangeability matrix symmetric when the
 instantaneous mask and every predicate mask are symmetric (the `TimeReversible` precondition). -/
@@ -257,5 +312,16 @@ example : ∀ i j, i < 2 → j < 2 → 0 ≤ mget (#[#[0, 1], #[1, 0]] : Mat ℚ
   fun i j hi hj => (by decide +kernel : ∀ i, i < 2 → ∀ j, j < 2 → 0 ≤ mget (#[#[0, 1], #[1, 0]] : Mat ℚ) i j) i hi j hj
 
 end ordered
+
+/- FULL STATEMENT (not proved): `GeneralStationary.calc_exchangeability_matrix` — after the `last_in_column`
+   loop (`gsLoop`, when it returns `some R`) the flow-balance hypothesis of `stationaryQ_stationary` holds:
+     ∀ j < n, sumTo n (fun i => π_i * (R i j * π_j)) = π_j * sumTo n (fun k => R j k * π_k).
+   Each `gsStep` balances one column by construction (`R[i,j] = (row_total - col_total)/π_i`), later steps only
+   touch rows that are processed later, and the last column balances because total in-flow equals total
+   out-flow; the induction over the column order was not completed in the time box.  `stationaryQ_stationary`
+   is proved *given* flow balance, and the harness checks `π Q = 0` / `π P = π` on the real GeneralStationary
+   class for every draw.  Likewise the structural hypotheses of `reversible_detailed_balance_conditional` /
+   `_monomer` (instantaneous pairs differ at exactly one position) are shown for the model's `instMask` on a
+   concrete alphabet by `decide`, not for every gap-free alphabet. -/
 
 end CogentModel.C05
